@@ -974,6 +974,79 @@ v("C01", "negate-always", "httpgrpc/io.go",
 		sz = -sz
 	}""", silent=True, why="behaviour-preserving: -0 == 0")
 
+# ------------------------------------------------------------------ C03
+v("C03", "http-sendmsg-no-headerssent", "httpgrpc/server.go",
+  "	s.headersSent = true // sent implicitly\n", "", "R1", "data-marks-sent", "SetHeader after the first message silently succeeds and is lost")
+v("C03", "inproc-setheader-no-state-check", "inprocgrpc/in_process.go",
+  """	if s.state != streamStateHeaders {
+		return fmt.Errorf("headers already sent")
+	}
+	if s.headers == nil {""", """	if s.headers == nil {""", "R1", "header-mutation-guarded", "headers accepted after they were sent")
+v("C03", "unary-sts-sendheader-no-mark", "internal/transport_stream.go",
+  """	if err := sts.setHeaderLocked(md); err != nil {
+		return err
+	}
+	sts.hdrsSent = true
+	return nil""", """	if err := sts.setHeaderLocked(md); err != nil {
+		return err
+	}
+	return nil""", "R1", "SendHeader:marks-sent", "SendHeader does not close the header phase")
+v("C03", "finish-error-before-trailers", "inprocgrpc/in_process.go",
+  """	if len(s.trailers) > 0 {
+		_ = writeMessage(s.ctx, nil, s.responses, frame{trailers: s.trailers})
+	}
+	s.trailers = nil
+
+	if err != nil {
+		_ = writeMessage(s.ctx, nil, s.responses, frame{err: err})
+	}""", """	if err != nil {
+		_ = writeMessage(s.ctx, nil, s.responses, frame{err: err})
+	}
+
+	if len(s.trailers) > 0 {
+		_ = writeMessage(s.ctx, nil, s.responses, frame{trailers: s.trailers})
+	}
+	s.trailers = nil""", "R2", "frame-order", "trailers after the error frame are never seen by the client")
+v("C03", "header-option-overwritten", "internal/call_options.go",
+  "			copts.Headers = append(copts.Headers, o.HeaderAddr)", "			copts.Headers = []*metadata.MD{o.HeaderAddr}", "R3", "Headers:append", "only the last grpc.Header option is filled")
+v("C03", "settrailers-first-only", "internal/call_options.go",
+  """	for _, tlr := range co.Trailers {
+		*tlr = md
+	}""", """	for _, tlr := range co.Trailers {
+		*tlr = md
+		break
+	}""", "R3", "fan-out", "only the first grpc.Trailer target is filled")
+v("C03", "header-path-forgets-options", "inprocgrpc/in_process.go",
+  """			case kindTrailers:
+				s.trailers = m.trailers
+				s.copts.SetTrailers(s.trailers)
+			case kindError:
+				s.state = streamStateClosed
+				fallthrough""", """			case kindTrailers:
+				s.trailers = m.trailers
+			case kindError:
+				s.state = streamStateClosed
+				fallthrough""", "R3", "SetTrailers", "trailers seen by Header() never reach grpc.Trailer options")
+v("C03", "toheaders-stdencoding", "httpgrpc/io.go",
+  "				v = base64.URLEncoding.EncodeToString([]byte(v))", "				v = base64.StdEncoding.EncodeToString([]byte(v))", "R4", "bin-codec-agreement", "writer uses the std alphabet, reader the URL alphabet: values with bytes mapping to +/ fail")
+v("C03", "asmetadata-no-decode", "httpgrpc/io.go",
+  """			if strings.HasSuffix(k, "-bin") {
+				vv, err := base64.URLEncoding.DecodeString(v)
+				if err != nil {
+					return nil, err
+				}
+				v = string(vv)
+			}""", "", "R4", "asMetadata:bin-codec", "binary headers delivered still encoded")
+v("C03", "reserved-authorization", "httpgrpc/io.go",
+  '	"accept-encoding":   {},', '	"accept-encoding":   {},\n	"authorization":     {},', "R5", "reserved-headers:authorization", "application metadata 'authorization' silently dropped")
+v("C03", "toheaders-skip-empty-values", "httpgrpc/io.go",
+  """		for _, v := range vs {
+			if isBin {""", """		for _, v := range vs {
+			if v == "" {
+				continue
+			}
+			if isBin {""", "R5", "only-reserved-filter", "empty metadata values are dropped")
+
 
 def main():
     if os.path.isdir(OUT):
